@@ -1,6 +1,7 @@
 """C13 — the Index and file-info APIs describe files exactly; random access is correct."""
 import json, os
 import vlib
+import kernels_stage
 import c13ref as R
 
 META = {
@@ -981,8 +982,10 @@ def run(ctx):
     if not ok:
         ctx.obligation_broken("stage G: Gen/C13.lean cannot be regenerated from src/liblzma/common/index.c", log)
     R.load_constants(gen_path)
+    # G (scalar kernels translated from the clang AST: Gen/Kernels.lean + Gen/KernelsGrid.lean; bridged in Props/Kernels.lean)
+    kmods = kernels_stage.run_stage(ctx)
     # P
-    p_ok = ctx.lean_stage(["XzVerif.Props.C13"], exes=["xzm_c13"]) if ok else False
+    p_ok = ctx.lean_stage(["XzVerif.Props.C13"] + kmods, exes=["xzm_c13"]) if ok else False
     model_ok = p_ok or os.path.exists(vlib.model_exe("xzm_c13"))
     # K
     fe = {}
